@@ -308,8 +308,12 @@ pub fn run_case(c: &Case) -> Obs {
         if as_files {
             let d = std::env::temp_dir().join(format!("rv-c13-{}-{:?}", std::process::id(), std::thread::current().id()));
             let _ = std::fs::remove_dir_all(&d);
-            for (name, text) in &libs {
+            for (k, (name, text)) in libs.iter().enumerate() {
                 let parts: Vec<&str> = name.split(' ').collect();
+                // every other file holds a second library in front of the wanted one: its one-identifier name a/b maps to
+                // the same file path as (a b), and it is a different library all the same
+                let decoy = if parts.len() >= 2 && k % 2 == 0 { format!("(define-library ({}) (export decoy-v) (begin (define decoy-v 0)))\n", parts.join("/")) } else { String::new() };
+                let text = &format!("{}{}", decoy, text);
                 let mut sub = d.clone();
                 for p in &parts[..parts.len() - 1] {
                     sub = sub.join(p);
